@@ -169,16 +169,35 @@ macro_rules | `(tactic| atnow_step) => `(tactic| with_reducible apply AtNow.guar
 theorem AtNow.frontStep {w0 w : World} (h : AtNow w0 w) (g : Nat) (gd : Guard) : AtNow w0 (frontStep w g gd) := by
   unfold S3.frontStep; atnow
 
-theorem AtNow.guardSignal' : ∀ (fuel : Nat) (w : World) (g : Nat), AtNow w (guardSignal fuel w g) := by
+theorem AtNow.condSignal_fst {w0 w : World} (h : AtNow w0 w) (g : Nat) : AtNow w0 (condSignal w g).1 := by
+  simp only [Sim.condSignal]
+  split
+  · exact h
+  · split
+    · exact h
+    · refine AtNow.foldl (fun w q => by atnow) _ ?_
+      exact AtNow.foldl (fun w q => by atnow) _ h
+macro_rules | `(tactic| atnow_step) => `(tactic| with_reducible apply AtNow.condSignal_fst)
+
+theorem AtNow.ownStep {w0 w : World} (h : AtNow w0 w) (fwd : Bool) (g : Nat) (gd : Guard) : AtNow w0 (ownStep fwd w g gd) := by
+  unfold S3.ownStep
+  split
+  · exact h.condSignal_fst g
+  · exact h.frontStep g gd
+
+theorem AtNow.guardSignalF' : ∀ (fuel : Nat) (fwd : Bool) (w : World) (g : Nat), AtNow w (guardSignalF fwd fuel w g) := by
   intro fuel
   induction fuel with
-  | zero => intro w g; rw [guardSignal_zero]; exact (AtNow.refl w).fail _
+  | zero => intro fwd w g; rw [guardSignalF_zero]; exact (AtNow.refl w).fail _
   | succ fuel ih =>
-    intro w g
-    rw [guardSignal_succ]
+    intro fwd w g
+    rw [guardSignalF_succ]
     split
     · exact AtNow.refl w
-    · exact AtNow.foldl (fun w o => ih w o) _ ((AtNow.refl w).frontStep g _)
+    · exact AtNow.foldl (fun w o => ih true w o) _ ((AtNow.refl w).ownStep fwd g _)
+
+theorem AtNow.guardSignal' (fuel : Nat) (w : World) (g : Nat) : AtNow w (guardSignal fuel w g) :=
+  AtNow.guardSignalF' fuel false w g
 
 theorem AtNow.guardSignal {w0 w : World} (h : AtNow w0 w) (fuel : Nat) (g : Nat) : AtNow w0 (guardSignal fuel w g) :=
   h.trans (AtNow.guardSignal' fuel w g)
@@ -329,15 +348,6 @@ theorem AtNow.pqPutLoop_fst {w0 w : World} (h : AtNow w0 w) (p : Pid) (k obj : N
   simp only [Sim.pqPutLoop]; atnow
 macro_rules | `(tactic| atnow_step) => `(tactic| with_reducible apply AtNow.pqPutLoop_fst)
 
-theorem AtNow.condSignal_fst {w0 w : World} (h : AtNow w0 w) (g : Nat) : AtNow w0 (condSignal w g).1 := by
-  simp only [Sim.condSignal]
-  split
-  · exact h
-  · split
-    · exact h
-    · refine AtNow.foldl (fun w q => by atnow) _ ?_
-      exact AtNow.foldl (fun w q => by atnow) _ h
-macro_rules | `(tactic| atnow_step) => `(tactic| with_reducible apply AtNow.condSignal_fst)
 
 theorem AtNow.acquireStep_fst {w0 w : World} (h : AtNow w0 w) (p : Pid) (r : Nat) : AtNow w0 (acquireStep w p r).1 := by
   simp only [Sim.acquireStep]; atnow
